@@ -458,6 +458,9 @@ func rulesC01(e *Engine, r *Report) {
 			r.Check(len(hs) == 1, "R01.11", "client.(*Broker).hash: hash workers use Conf.Store's opener", e.Pos(fn.Pos()), "the hash workers open files through another opener than the one payloads are streamed with", 1)
 		}
 	}
+	// ---------------------------------------------------------------- R01.12
+	r.Rule("R01.12", "a failed verdict is not papered over by the log: the cache refill from the receive log inserts a record only when the cache holds nothing under the very key it inserts at (<stage root>/<name>) - a live entry (failed, received, validated) of a newer version of that name is never replaced by the `logged` record of an older delivery (else the sender is told `passed` for content that failed validation) - shared with R05.6")
+	e.checkRefillKeepsLive(r, "R01.12")
 }
 
 func shorten(s string) string {
